@@ -8,12 +8,9 @@ fn main() {
         .unwrap_or(20_000);
     install_guards(timeout, 4 << 30);
     let mut log = Log::new(opts.clone());
-    match opts.fam.as_str() {
-        "exact" => fam::exact::drive(&mut log),
-        other => {
-            eprintln!("unknown family {}", other);
-            std::process::exit(2);
-        }
+    if !fam::dispatch(opts.fam.as_str(), &mut log) {
+        eprintln!("unknown family {}", opts.fam);
+        std::process::exit(2);
     }
     log.finish();
 }
